@@ -393,6 +393,11 @@ func (g *GcsEmu) handleGcsUpdateMetadataRequest(ctx context.Context, baseUrl Htt
 			return fmt.Errorf("failed to update attrs of %s/%s: %w", bucket, filename, err)
 		}
 
+		// Read back the updated metadata for the response while the object lock is still held.
+		obj, err = g.store.GetMeta(baseUrl, bucket, filename)
+		if err != nil {
+			return fmt.Errorf("failed to get meta for %s/%s: %w", bucket, filename, err)
+		}
 		return nil
 	})
 
@@ -406,11 +411,6 @@ func (g *GcsEmu) handleGcsUpdateMetadataRequest(ctx context.Context, baseUrl Htt
 	}
 
 	// Respond with the updated metadata.
-	obj, err = g.store.GetMeta(baseUrl, bucket, filename)
-	if err != nil {
-		g.gapiError(w, http.StatusInternalServerError, fmt.Sprintf("failed to get meta for %s/%s: %s", bucket, filename, err))
-		return
-	}
 	g.jsonRespond(w, obj)
 }
 
@@ -664,6 +664,7 @@ func (g *GcsEmu) finishUpload(ctx context.Context, baseUrl HttpBaseUrl, obj *sto
 	}
 	obj.Md5Hash = md5Hash
 
+	var meta *storage.Object
 	err := g.locks.Run(ctx, lockName(bucket, filename), func(ctx context.Context) error {
 		// Find the existing file / meta.
 		existing, err := g.store.GetMeta(baseUrl, bucket, filename)
@@ -683,17 +684,21 @@ func (g *GcsEmu) finishUpload(ctx context.Context, baseUrl HttpBaseUrl, obj *sto
 		if err := g.store.Add(bucket, filename, contents, obj); err != nil {
 			return fmt.Errorf("failed to create %s/%s: %w", bucket, filename, err)
 		}
+
+		// Read back the object metadata for the response while the object lock is still held; afterwards a
+		// concurrent delete or overwrite could make it nil or somebody else's.
+		meta, err = g.store.GetMeta(baseUrl, bucket, filename)
+		if err != nil {
+			return fmt.Errorf("failed to get meta for %s/%s: %w", bucket, filename, err)
+		}
+		if meta == nil {
+			return fmt.Errorf("failed to get meta for %s/%s: object vanished", bucket, filename)
+		}
 		return nil
 	})
 
 	if err != nil {
 		return nil, err
-	}
-
-	// respond with object metadata
-	meta, err := g.store.GetMeta(baseUrl, bucket, filename)
-	if err != nil {
-		return nil, fmt.Errorf("failed to get meta for %s/%s: %w", bucket, filename, err)
 	}
 	return meta, nil
 }
